@@ -125,6 +125,9 @@ fn gen_case(seed: u64, tier: Tier) -> Case {
 		let any_db = rng.frange(-50.0, 6.0);
 		let any = rng.frange(-100.0, 100.0);
 		match ty {
+			// (decibel values below the -60 dB silence threshold are values like any other: the
+			// closed form runs through them; the envelope stream keeps to the audible range)
+			Ty::Db if !envelope => *rng.pick(&[0.0, -60.0, -6.0, -20.0, 3.0, any_db, -90.0, -120.0]),
 			Ty::Db => *rng.pick(&[0.0, -60.0, -6.0, -20.0, 3.0, any_db]),
 			Ty::Pan => rng.frange(-1.0, 1.0),
 			Ty::Mix => rng.f64(),
@@ -731,7 +734,7 @@ impl Check for C06 {
 		CheckInfo {
 			id: "C06",
 			level: "exploration",
-			rule: "each case = tweenable type (f64, f32, decibels, panning, rate, mix, duration, vector, clock speed in ticks per second, ticks per second -> ticks per minute, and as a tick length in seconds per tick), start value, a sequence of overlapping set() calls (target, duration incl. 0 and shorter than one update, every built-in easing with positive powers, start immediate / delayed / on a simulated clock that may pause or vanish before the start time - the tween is then dropped and the value stays) and an update-step partition (uniform, multiples, random, dyadic); a quarter of the cases read the per-frame gain envelope of a DC sound instead; 15% render a DC sound through the real manager (sound -> volume-control effect -> sub-track -> send route -> send track / main track) with overlapping set_volume / set_send tweens on any of the five gain stages and on the route volume, optionally pausing and resuming the sub-track in between - instantly, or with fades that are one more interpolated gain on the path; the chunk in which the fade-out ends is silent - (its sounds and effects stand still while it is paused, its own volume and route go on), seeded internal buffer size and callback sizes that are not multiples of it, every output frame compared with the closed form interpolated at (i + 1) / n from the previous chunk's final value; non-trivial = at least one tween started or ended; distinct = hash of the per-update (idle / waiting / running) sequence, type and number of transitions",
+			rule: "each case = tweenable type (f64, f32, decibels - also below the -60 dB silence threshold -, panning, rate, mix, duration, vector, clock speed in ticks per second, ticks per second -> ticks per minute, and as a tick length in seconds per tick), start value, a sequence of overlapping set() calls (target, duration incl. 0 and shorter than one update, every built-in easing with positive powers, start immediate / delayed / on a simulated clock that may pause or vanish before the start time - the tween is then dropped and the value stays) and an update-step partition (uniform, multiples, random, dyadic); a quarter of the cases read the per-frame gain envelope of a DC sound instead; 15% render a DC sound through the real manager (sound -> volume-control effect -> sub-track -> send route -> send track / main track) with overlapping set_volume / set_send tweens on any of the five gain stages and on the route volume, optionally pausing and resuming the sub-track in between - instantly, or with fades that are one more interpolated gain on the path; the chunk in which the fade-out ends is silent - (its sounds and effects stand still while it is paused, its own volume and route go on), seeded internal buffer size and callback sizes that are not multiples of it, every output frame compared with the closed form interpolated at (i + 1) / n from the previous chunk's final value; non-trivial = at least one tween started or ended; distinct = hash of the per-update (idle / waiting / running) sequence, type and number of transitions",
 			assumptions: vec![
 				"timing is allowed one update of quantisation where a start time has to be reached (delayed, clock); immediate tweens are compared at their exact elapsed time".into(),
 				"tolerance 1e-9 relative for f64-based types, 1e-5 for f32-based ones; end points, holding and 'previous value == last value' are exact".into(),
